@@ -180,6 +180,9 @@ Definition drop_col_tbl (x : name) (t : tbl) : tbl :=
                 (map (fun i => mkidx (iname i) (filter (fun c => negb (N.eqb c x)) (icols i)) (iuniq i) (itab i)) (tidx t)))
         (filter (fun k => negb (N.eqb (kcol k) x)) (tchk t)) (tmap t).
 
+Definition drop_chk_col (x : name) (t : tbl) : tbl :=
+  mktbl (tname t) (tcols t) (tpk t) (tidx t) (filter (fun k => negb (N.eqb (kcol k) x)) (tchk t)) (tmap t).
+
 Definition rename_col_tbl (x y : name) (t : tbl) : tbl :=
   let m := pk_name_map O (pk_cols t) in
   let cs := map (fun c => if N.eqb (cname c) x then mkcol y (cty c) (cnull c) (cpk c) else c) (tcols t) in
@@ -251,15 +254,23 @@ Definition step (o : op) (c : cat) : bool * cat :=
     | None => (false, c)
     end
   | AddColumn t x ty nl p =>
-    upd c t (fun tb => negb (has_col x tb) && match p with PAfter a => has_col a tb | _ => true end)
+    (* a table left without columns: appending (no FIRST/AFTER) never places the column and panics *)
+    upd c t (fun tb => negb (has_col x tb) && match p with PAfter a => has_col a tb | PLast => negb (isnil (tcols tb)) | PFirst => true end)
         (add_col_tbl x ty nl p)
   | DropColumn t x =>
-    upd c t (fun tb => match find_col x tb with
-                       | Some cl => negb (cpk cl) && negb (fk_uses_col c t x)   (* the only column may go too *)
-                                    (* keyless table + column of a UNIQUE index: the statement panics *)
-                                    && (negb (isnil (tpk tb)) || negb (existsb (fun i => iuniq i && mem x (icols i)) (tidx tb)))
-                       | None => false end)
-        (drop_col_tbl x)
+    match find_tbl t c with
+    | None => (false, c)
+    | Some tb =>
+      match find_col x tb with
+      | None => (false, c)
+      | Some cl =>
+        if fk_uses_col c t x || cpk cl || (isnil (tpk tb) && existsb (fun i => iuniq i && mem x (icols i)) (tidx tb))
+        then (* column of a foreign key (error), primary key column or column of a UNIQUE index of a keyless table
+                (panic in the table rewrite): all after dropConstraints has removed the checks on the column *)
+             (false, with_tables c (set_tbl t (drop_chk_col x tb) (tables c)))
+        else (true, with_tables c (set_tbl t (drop_col_tbl x tb) (tables c)))   (* the only column may go too *)
+      end
+    end
   | RenameColumn t x y =>
     match upd c t (fun tb => has_col x tb && negb (has_col y tb) && negb (existsb (fun k => N.eqb (kcol k) x) (tchk tb)))
               (rename_col_tbl x y) with
@@ -283,7 +294,7 @@ Definition step (o : op) (c : cat) : bool * cat :=
     upd c t (fun tb => negb (existsb cpk (tcols tb)) && negb (isnil cs) && nodupb cs && forallb (fun x => has_col x tb) cs)
         (add_pk_tbl cs)
   | DropPK t =>
-    upd c t (fun tb => existsb cpk (tcols tb)) drop_pk_tbl
+    upd c t (fun tb => existsb cpk (tcols tb) || isnil (tcols tb)) drop_pk_tbl
   | AddFK t f cs p pcs =>
     match find_tbl t c, find_tbl p c with
     | Some tb, Some pb =>
@@ -317,7 +328,7 @@ Definition step (o : op) (c : cat) : bool * cat :=
     else (false, c)
   | CreateTrigger g t before ev r =>
     (* no uniqueness check on trigger names in the memory database *)
-    if trig_resolves c (mktrig g t before ev r) && forallb (trig_loads c) (trigs c)
+    if trig_resolves c (mktrig g t before ev r)
     then (true, mkcat (tables c) (fks c) (views c) (trigs c ++ [mktrig g t before ev r]) (procs c)) else (false, c)
   | DropTrigger g =>
     if existsb (fun x => N.eqb (gname x) g) (trigs c)
